@@ -1,9 +1,24 @@
 #!/bin/sh
 # Offline build of the whole framework from files on disk: regenerate the expression layer from /repo, build every
-# property module and the model driver.
+# registered property module and the model drivers (so that the first ./check of each property is a no-op build).
 set -e
 HERE="$(cd "$(dirname "$0")" && pwd)"
 cd "$HERE"
 /venv/bin/python tools/translate/py2lean.py --repo "${VERIF_REPO:-/repo}" --out lean
+MODS=$(/venv/bin/python - <<'PY'
+import sys
+sys.path.insert(0, "tools")
+import props
+mods, drv = [], []
+for c in props.PROPS.values():
+    for m in c["modules"]:
+        if m not in mods:
+            mods.append(m)
+    for d in c.get("drivers", ("gsdriver",)):
+        if d not in drv:
+            drv.append(d)
+print(" ".join(mods + drv))
+PY
+)
 cd lean
-lake build GraphSlam gsdriver
+lake build $MODS
